@@ -4,6 +4,8 @@ package masswallet
 
 import (
 	"github.com/massnetorg/mass-core/massutil"
+	"massnet.org/mass-wallet/config"
+	"massnet.org/mass-wallet/masswallet/keystore"
 	"massnet.org/mass-wallet/masswallet/txmgr"
 	rt "massnet.org/mass-wallet/zzverifrt"
 )
@@ -178,6 +180,52 @@ func VerifC02TopK() {
 		rt.Assert(kept == k, "k-kept-when-available")
 	} else {
 		rt.Assert(kept == small, "all-small-kept")
+	}
+	rt.Reach("end")
+}
+
+// ---- cut "coinSource": getUtxosExcludeBindingAndStaking (the coin source over the store is c02_eligible_coins);
+// contract used here: it returns the offered coins as they are.
+var c02Offered []*txmgr.Credit
+
+func (w *WalletManager) getUtxosExcludeBindingAndStaking(stdAddresses []string, wantAmt massutil.Amount) ([]*txmgr.Credit, bool, error) {
+	if !rt.CutActive("coinSource") {
+		return w.getUtxosExcludeBindingAndStaking__real(stdAddresses, wantAmt)
+	}
+	return c02Offered, false, nil
+}
+
+// VerifC02ChangeAddress: what the real findEligibleUtxos tells its caller about change - the address the change output
+// goes to when the request names none - is the address of the *first selected* coin, i.e. an address that owns an
+// input of the transaction (the composition harnesses cut findEligibleUtxos to exactly this contract). 1..3 offered
+// coins of arbitrary amounts on two addresses of the wallet in an arbitrary pattern, arbitrary requested amount.
+func VerifC02ChangeAddress() {
+	const wid = "ac10aaaaaaaaaaaaaaaaaaaaaaaaaaaaaaaaaaaaaa"
+	ks := keystore.VerifNewManager(wid)
+	hA, hB := make([]byte, 32), make([]byte, 32)
+	hA[0], hB[0] = 0xaa, 0xbb
+	keystore.VerifAddAddressWithHash(ks, wid, "address-A", hA)
+	keystore.VerifAddAddressWithHash(ks, wid, "address-B", hB)
+	w := &WalletManager{ksmgr: ks, chainParams: config.ChainParams}
+	n := rt.NondetLen(1, 3)
+	coins, _, _ := c02Coins(n)
+	for _, c := range coins {
+		c.ScriptHash = hA
+		if rt.NondetBool() {
+			c.ScriptHash = hB
+		}
+	}
+	c02Offered = coins
+	target := uint64(rt.NondetRange(1, 3*c02CoinMax))
+	sel, first, _, _, err := w.findEligibleUtxos(c02Amt(target), []string{"address-A", "address-B"})
+	rt.Assert(err == nil, "selection-succeeds")
+	if err == nil && len(sel) > 0 {
+		want := "address-A"
+		if sel[0].ScriptHash[0] == 0xbb {
+			want = "address-B"
+		}
+		rt.Assert(first == want, "default-change-address-is-the-address-of-the-first-input")
+		rt.Reach("selected")
 	}
 	rt.Reach("end")
 }
